@@ -5,7 +5,7 @@ set -e
 cd "$(dirname "$0")/../coq"
 mods=""
 for f in theories/Props/C*.v; do mods="$mods AS.Props.$(basename "$f" .v)"; done
-timeout 3600 coqchk -o -silent -Q theories AS $mods AS.Extract.Entry > ../coqchk/full.out 2>&1
+timeout 3600 coqchk -o -silent -Q theories AS $mods AS.Props.Examples AS.Extract.Entry > ../coqchk/full.out 2>&1
 awk '/CONTEXT SUMMARY/{f=1} f{print}' ../coqchk/full.out > ../coqchk/summary.txt
 rm -f ../coqchk/full.out
 grep -c . ../coqchk/summary.txt
